@@ -191,6 +191,7 @@ def simple(ts, posts, meta="", code="", desc=""):
 
 class C15(PropBase):
     id = "C15"
+    needs_cli = True     # the borrowed git-storage cases (C08's) run the real binary too
 
     # ---- cases
     def mk(self, kind, text, cfg=None, **kw):
@@ -470,6 +471,14 @@ class C15(PropBase):
                     text = mutate(rng, text)[1]
                 files.append(text)
             out.append(self.mk_files("files:random", files))
+        # git storage is a multi-file input as well: an executable journal file, a faulty file, a near-miss name in the
+        # selected commit - "never partial data" is C08's comparison of the git load with the filesystem load of the same
+        # commit, borrowed here (run and judged by C08's plug-in on a few generated repositories)
+        if not focus:
+            import c08
+            for c in c08.PROP.gen(rng, "quick", focus=True):
+                c = dict(c, delegate="c08", kind="git:" + str(c.get("kind", "")))
+                out.append(c)
         return out
 
     # ---- running
